@@ -12,7 +12,10 @@ CFG = {'harness': 'det',
              'rustc/LLVM/std slice and integer semantics as encoded in Base/Res.v, Base/Bytes.v (slice/idx/arr panic '
              "exactly when Rust's do)",
              'winnow 0.6.1 combinators (separated_foldl1, repeat(0..), alt, seq!, le_u24, u8.verify.try_map, take, '
-             'le_u32) on complete &[u8] input are modelled by the recursive parser Codec/Chrono.v:cb_fifo'],
+             'le_u32, literals, tuples, map/value/void) on complete &[u8] input as transcribed from the winnow source in '
+             'Codec/Winnow.v (checkpoint/reset, Backtrack vs Cut, the must-consume assert); chronobox.rs transcribed '
+             'combinator by combinator in Codec/ChronoWinnow.v and PROVED equal to the recursive parser '
+             'Codec/Chrono.v:cb_fifo (C07_cbw_fifo_eq); the differential runs the combinator-level model'],
  'level_text': 'Coq theorems over a model of chronobox_fifo: symbolic classification of all 2^32 words; the consumed '
                'prefix is a sequence of words/complete scaler blocks whose entries are exactly the output, the '
                'remainder is the untouched suffix and starts with no complete element; parse(a++b) = parse(a) then '
@@ -23,4 +26,11 @@ CFG = {'harness': 'det',
                'implementation, piecewise vs implementation, all five entry fields + remainder length compared); '
                'extraction; harness',
  'note': 'entries and remainder length of implementation and proved model must agree, whole and piecewise',
- 'model': 'det'}
+ 'model': 'det',
+ # `cb` / `cbfeed` lines are answered by the combinator-level model (unit c07w, which cross-checks the recursive
+ # model of unit det on every case and prints `models-disagree` if they differ)
+ 'model_units': ['c07w', 'det'],
+ # the combinator-level runner is quadratic in the stream length (eof_offset is a list length): run 16 slices
+ 'parallel_model': 16}
+
+CFG["level_extra"] = ('Since the combinator layer (coq/Codec/Winnow.v, ChronoWinnow.v): the winnow 0.6.1 combinators actually used (take, any, literal, verify, try_map, le_u24/le_u32, seq, alt, repeat(0..), separated_foldl1 with their backtrack/cut/reset semantics and the must-consume assertion) are transcribed from the crate source and chronobox.rs is transcribed combinator by combinator; C07_cbw_fifo_eq proves that model equal to the recursive parser on every input, in debug and release configurations, and the differential runs the combinator-level model.')
